@@ -7,3 +7,5 @@ pub fn no_fmt(_args: core::fmt::Arguments<'_>) -> alloc::string::String {
 extern crate alloc;
 
 pub mod hashers;
+pub mod f17;
+pub mod fri;
